@@ -47,7 +47,10 @@ fn dummy_contract() -> Box<dyn Contract<Empty>> {
     Box::new(ContractWrapper::new_with_empty(dummy_exec, dummy_inst, dummy_query).with_migrate(dummy_migrate))
 }
 
-pub struct W16 { pub w: World, pub dummy_code: u64, pub hook: Addr, pub phase: u8, pub failed_transfers: Vec<C>, pub sibling_ix: usize }
+/// the run's seed (VERIF_SEED): the randomised payloads (k = 2) derive from it
+pub static SEED: std::sync::atomic::AtomicU64 = std::sync::atomic::AtomicU64::new(1);
+
+pub struct W16 { pub w: World, pub dummy_code: u64, pub hook: Addr, pub phase: u8, pub failed_transfers: Vec<C>, pub sibling_ix: usize, pub seed: u64 }
 
 pub fn exec_json(app: &mut App, sender: &Addr, contract: &Addr, msg: &Value, funds: &[Coin]) -> anyhow::Result<AppResponse> {
     let mut f = funds.to_vec();
@@ -96,9 +99,16 @@ pub fn world16(phase: u8) -> W16 {
     let dummy_code = w.app.store_code(dummy_contract());
     let hook = w.app.instantiate_contract(dummy_code, adm.clone(), &Empty {}, &[], "dummy", None).unwrap();
     must(exec_json(&mut w.app, &adm, &w.epoch_manager.clone(), &json!({"add_hook": {"contract_addr": hook.to_string()}}), &[]), "epoch hook");
-    let mut x = W16 { w, dummy_code, hook, phase, failed_transfers: vec![], sibling_ix: 0 };
+    let mut x = W16 { w, dummy_code, hook, phase, failed_transfers: vec![], sibling_ix: 0, seed: SEED.load(std::sync::atomic::Ordering::Relaxed) };
     if phase == 1 { x.transfer_top(); }
     if phase == 2 { x.transfer_children(); }
+    if phase == 3 {
+        // the same router code deployed WITHOUT a wasm admin (route management then has no owner at all)
+        let r = x.w.app.instantiate_contract(x.w.codes.router, adm.clone(), &white_whale_std::pool_network::router::InstantiateMsg { terraswap_factory: x.w.factory.to_string() }, &[], "router_noadmin", None).unwrap();
+        mint(&mut x.w.app, &r);
+        must(exec_json(&mut x.w.app, &alice, &r, &json!({"add_swap_routes": {"swap_routes": [{"offer_asset_info": nat("uwhale"), "ask_asset_info": nat("uusdc"), "swap_operations": [op("uwhale", "uusdc")]}]}}), &[]), "route on the admin-less router");
+        x.w.router = r;
+    }
     x
 }
 
@@ -218,6 +228,27 @@ const DAY_S: u64 = 86_400;
 
 /// every ExecuteMsg variant of `c` with at least one payload that is valid for an authorised, prepared caller `a`
 pub fn payloads(x: &W16, c: C, a: &Addr) -> Vec<Payload> {
+    let mut v = payloads_fixed(x, c, a);
+    // randomised payloads: every payload that sets several optional fields gets a sibling (k = 2) in which a seeded random subset of them is left out
+    let mut extra = vec![];
+    for pl in v.iter().filter(|p| p.k == 1) {
+        let mut rng = Rng::new(x.seed ^ hash_str(&format!("{}{}", c.coq(), pl.variant)));
+        let mut msg = pl.msg.clone();
+        let mut changed = false;
+        if let Some(obj) = msg.as_object_mut() {
+            for (_, inner) in obj.iter_mut() {
+                if let Some(fields) = inner.as_object_mut() {
+                    for (_, val) in fields.iter_mut() { if !val.is_null() && rng.chance(1, 2) { *val = Value::Null; changed = true; } }
+                }
+            }
+        }
+        if changed && pl.variant == "UpdateConfig" { extra.push(Payload { variant: pl.variant, k: 2, msg, funds: pl.funds.clone(), advance_s: pl.advance_s, pre_epochs: pl.pre_epochs }); }
+    }
+    v.extend(extra);
+    v
+}
+
+fn payloads_fixed(x: &W16, c: C, a: &Addr) -> Vec<Payload> {
     let w = &x.w;
     let me = a.to_string();
     let nulls_pair = json!({"owner": null, "fee_collector_addr": null, "pool_fees": null, "feature_toggle": null});
@@ -450,10 +481,11 @@ fn model_obs_shape(c: C, variant: &str, cmp: u8, accepted: bool) -> Vec<String> 
 }
 
 pub const KNOWN_AMR: &str = "router_assert_minimum_receive_unrestricted";
+pub const KNOWN_NOADMIN: &str = "router_routes_open_without_wasm_admin";
 
 fn cell_replay(phase: u8, c: C, variant: &str, k: usize, who: Who, sib: usize) -> Value {
     json!({"kind": "auth_matrix_cell", "sibling": sib, "phase": phase, "contract": c.coq(), "variant": variant, "payload": k, "caller": who.coq(),
-           "note": "phase 0 as deployed, 1 after top-level ownership transfer to newowner, 2 after pair/trio/vault ownership transfer; each cell runs on a fresh full world"})
+           "note": "phase 0 as deployed, 1 after top-level ownership transfer to newowner, 2 after pair/trio/vault ownership transfer, 3 router deployed without wasm admin; each cell runs on a fresh full world"})
 }
 
 fn parse_c(s: &str) -> C { *ALL_C.iter().find(|c| c.coq() == s).expect("contract name") }
@@ -470,7 +502,9 @@ fn monitor_cell(out: &mut Out, phase: u8, c: C, variant: &str, k: usize, who: Wh
         let rightful = match need { Need::Owner => who == owner_who(c, phase), Need::SelfOnly => who == Who::SelfC, Need::DesignatedOnly => who == Who::Designated,
             Need::CreatorOrFactoryOwner => who == Who::Designated || who == owner_who(C::IncentiveFactory, phase) };
         if !rightful && r.accepted {
-            if c == C::Router && variant == "AssertMinimumReceive" {
+            if c == C::Router && phase == 3 && (variant == "AddSwapRoutes" || variant == "RemoveSwapRoutes") {
+                out.known_hit("C16", KNOWN_NOADMIN, &format!("router deployed without wasm admin: {} accepted from {}", variant, who.coq()), replay.clone());
+            } else if c == C::Router && variant == "AssertMinimumReceive" {
                 out.known_hit("C16", KNOWN_AMR, &format!("router AssertMinimumReceive accepted from {} (no sender check)", who.coq()), replay.clone());
             } else {
                 mfail(out, "C16", &format!("{} {} accepted from {} in phase {phase}: only {:?} may perform it", c.coq(), variant, who.coq(), need), replay.clone());
@@ -514,6 +548,8 @@ pub fn run(args: &Args) {
         std::process::exit(if failed { 1 } else { 0 });
     }
     let mut rng = Rng::new(args.seed);
+    SEED.store(args.seed, std::sync::atomic::Ordering::Relaxed);
+    probe_router_without_admin(&mut out);
     // 0. the ownership transfers the later phases rely on must be possible for the owner
     for ph in [1u8, 2u8] {
         let x = world16(ph);
@@ -541,7 +577,7 @@ pub fn run(args: &Args) {
     let probe = world16(0);
     let mut cells: Vec<(u8, C, &'static str, usize)> = vec![];
     for c in ALL_C {
-        let phases: Vec<u8> = if c.is_child() { vec![0, 1, 2] } else { vec![0, 1] };
+        let phases: Vec<u8> = if c.is_child() { vec![0, 1, 2] } else if c == C::Router { vec![0, 1, 3] } else { vec![0, 1] };
         for pl in payloads(&probe, c, &admin()) {
             for ph in &phases {
                 cells.push((*ph, c, pl.variant, pl.k));
@@ -583,6 +619,18 @@ pub fn run(args: &Args) {
     // 3. ownership histories
     run_histories(&mut out, &mut rng, if thorough { 60 } else { 6 });
     out.finish();
+}
+
+/// informational (not part of the matrix): the router's route management is guarded by the WASM ADMIN of the contract; deployed without one,
+/// helpers.rs::assert_admin lets anybody through. Measured here and reported in the evidence histogram.
+fn probe_router_without_admin(out: &mut Out) {
+    let mut w = full_world();
+    let big = 1_000_000u128;
+    let alice = Addr::unchecked(USER);
+    let _ = exec_json(&mut w.app, &alice, &w.pair.clone(), &json!({"provide_liquidity": {"assets": [asset(nat("uwhale"), big), asset(nat("uusdc"), big)], "slippage_tolerance": null, "receiver": null}}), &[coin(big, "uwhale"), coin(big, "uusdc")]);
+    let router = w.app.instantiate_contract(w.codes.router, admin(), &white_whale_std::pool_network::router::InstantiateMsg { terraswap_factory: w.factory.to_string() }, &[], "router_noadmin", None).unwrap();
+    let r = exec_json(&mut w.app, &Addr::unchecked(STRANGER), &router, &json!({"add_swap_routes": {"swap_routes": [{"offer_asset_info": nat("uwhale"), "ask_asset_info": nat("uusdc"), "swap_operations": [op("uwhale", "uusdc")]}]}}), &[]);
+    out.count(if r.is_ok() { "info:router_without_wasm_admin:stranger_add_route_accepted" } else { "info:router_without_wasm_admin:stranger_add_route_rejected" });
 }
 
 // ---- ownership-transfer histories on every ownable contract -------------------------------------------------------------------
